@@ -1,13 +1,15 @@
 #!/bin/bash
-# tools/verify_seeded.sh <PROP> <1|2>  - independent confirmation of a sub-agent's mutant in its scratch worktree:
+# tools/verify_seeded.sh <PROP> <1|2|3>  - independent confirmation of a sub-agent's mutant in its scratch worktree:
 # patch applies to /repo HEAD, test-suite passes with it, demo fails with it and passes without it.
 P=$1; N=$2; W=${WTBASE:-/tmp/wt}-$P
 D=$W/MUTANT.diff; DEMO=$(ls $W/demo.sh $W/demo.py 2>/dev/null | head -1)
 [ "$N" = 2 ] && { D=$W/MUTANT2.diff; DEMO=$(ls $W/demo2.sh $W/demo2.py 2>/dev/null | head -1); }
+# round-4 naming: MUTANT<N>.diff with demo<N>.sh|py
+[ -f "$W/MUTANT$N.diff" ] && { D=$W/MUTANT$N.diff; DEMO=$(ls $W/demo$N.sh $W/demo$N.py 2>/dev/null | head -1); }
 [ -f "$D" ] || { echo "no diff $D"; exit 2; }
 cd $W && git checkout -q -- src && git apply "$D" || { echo "APPLY FAILED"; exit 2; }
 run_demo() { case "$DEMO" in *.py) PYTHONPATH=$W/src PATH=/venv/bin:$PATH timeout 600 /venv/bin/python "$DEMO" >/tmp/demo-$P-$N.log 2>&1;; *) PYTHONPATH=$W/src PATH=/venv/bin:$PATH timeout 600 bash "$DEMO" >/tmp/demo-$P-$N.log 2>&1;; esac; echo $?; }
-T37=$(cd $W && PYTHONPATH=$W/src /venv/bin/python -m pytest -q -p no:cacheprovider --timeout=900 -q $(python3 -c "
+[ -n "$SKIP37" ] && T37=skipped || T37=$(cd $W && PYTHONPATH=$W/src /venv/bin/python -m pytest -q -p no:cacheprovider --timeout=900 -q $(python3 -c "
 import json; print(' '.join(t.split('::')[0].replace('.', '/')+'.py::'+t.split('::')[1] for t in json.load(open('/root/.vp/BASELINE.json'))['stable_pass']))") 2>&1 | tail -1)
 T120=$(cd $W && PYTHONPATH=$W/src PATH=/venv/bin:$PATH /venv/bin/python -m pytest -q -p no:cacheprovider --timeout=900 -q 2>&1 | tail -1)
 WITH=$(run_demo)
